@@ -8,7 +8,7 @@ counts); no byte is ever written or read.
 """
 from . import terms as tm
 from .terms import T, const, NONE
-from .symex import Interp
+from .symex import Interp, flat_guards
 from . import kind as K
 from .core import PROVED, VIOLATED, UNDECIDED
 
@@ -927,12 +927,23 @@ def _reader_rules(R, C, info):
             term, conds = a
             if is_call(term, ".astype") and term.args[1] and tm.dotted(term.args[1][0]) == "numpy.uint32":
                 continue
-            g = list(conds) + list(st.ev.guards)
-            if any(c.op == "cmp" and ((c.args[0] == "!=" and not pol) or (c.args[0] == "==" and pol)) and
-                   any(tm.dotted(x) == "numpy.uint32" for x in c.args[1:]) and any(x.op == "attr" and x.args[1] == "dtype" for x in c.args[1:]) for c, pol in g):
+            g = flat_guards(list(conds) + list(st.ev.guards))
+
+            def _is_dtype_side(x):
+                # the row-id array's .dtype, or the dtype object the array was created with (IndxIO.dtype(word size), numpy.dtype(...))
+                return (x.op == "attr" and x.args[1] == "dtype") or (x.op == "call" and (tm.callee_name(x) or "").split(".")[-1].split(":")[-1] in ("dtype", "IndxIO.dtype"))
+            same32 = any(c.op == "cmp" and ((c.args[0] == "!=" and not pol) or (c.args[0] == "==" and pol)) and any(tm.dotted(x) == "numpy.uint32" for x in c.args[1:]) and any(_is_dtype_side(x) for x in c.args[1:]) for c, pol in g)
+            word4 = any(c.op == "cmp" and ((c.args[0] == "!=" and not pol) or (c.args[0] == "==" and pol)) and any(tm.is_const(x, 4) for x in c.args[1:]) for c, pol in g)
+            if same32 or word4:
+                continue
+            if any(tm.contains(c, lambda x: tm.dotted(x) == "numpy.uint32" or (x.op == "attr" and x.args[1] in ("dtype", "itemsize"))) for c, pol in g):
+                ok_dt = None if ok_dt is not False else False  # a dtype-related guard in a form not read here
                 continue
             ok_dt = False
-        C.ok(ok_dt, "R-C10-d", where, "every loaded row-id array has dtype uint32 (cast unless the file word is already 4 bytes)", "", "a path stores the raw file dtype: %s" % tm.show(st.value)[:160])
+        if ok_dt is None:
+            C.add("R-C10-d", UNDECIDED, where, "every loaded row-id array has dtype uint32 (cast unless the file word is already 4 bytes)", "the uncast path is guarded by a dtype test in an unrecognised form: %s" % tm.show(st.value)[:120])
+        else:
+            C.ok(ok_dt, "R-C10-d", where, "every loaded row-id array has dtype uint32 (cast unless the file word is already 4 bytes)", "", "a path stores the raw file dtype: %s" % tm.show(st.value)[:160])
     C.ok(ok_loop, "R-C10-a", where, "entries are populated in a loop over (length, key) pairs", "", detail or "no store into the entries dict inside a loop", undecided=not stores)
 
     # ---- what is returned (R-C10-d)
@@ -940,7 +951,14 @@ def _reader_rules(R, C, info):
         v = o.value
         if v.op == "tuple" and len(v.args) == 3:
             ent, com, dt = v.args
-            C.ok(any(st.base == ent for st in stores), "R-C10-d", where, "first returned value is the populated entries dict", "", "returns %s" % tm.show(ent)[:80])
+            # populated by stores in a loop, or built in one expression (dict(zip(keys, arrays)) / a dict comprehension): the
+            # latter is not read field by field here
+            if any(st.base == ent for st in stores):
+                C.ok(True, "R-C10-d", where, "first returned value is the populated entries dict", "", "")
+            elif (ent.op == "call" and tm.callee_name(ent) == "builtins.dict") or (ent.op == "comp" and ent.args[0] == "dict"):
+                C.add("R-C10-d", UNDECIDED, where, "first returned value is the populated entries dict", "the entries are built by one expression (%s): the key / array pairing is not decided for this form" % tm.show(ent)[:60])
+            else:
+                C.ok(False, "R-C10-d", where, "first returned value is the populated entries dict", "", "returns %s" % tm.show(ent)[:80])
             C.ok(com == val(u_common), "R-C10-d", where, "second returned value is the common field, a Python int from struct.unpack_from", "", "returns %s" % tm.show(com)[:120])
             kc = K.kind(com, kctx)
             C.ok(kc == K.PYINT, "R-C10-d", where, "common value is a Python int", "", "kind %s" % kc, undecided=True)
